@@ -131,19 +131,20 @@ Qed.
    the chain, or are dead waiters now *)
 Lemma tframe_updm_in s0 s k f :
   tframe C s0 s ->
-  (forall x, In x (holder_refs (f (getm s k))) -> isholder s0 x \/ tdead s x) ->
+  (forall x, In x (holder_refs (f (getm s k))) -> isholder s0 x \/ (tdead s x /\ x < next s)) ->
   tframe C s0 (updm s k f).
 Proof.
   intros F Hf.
   assert (tview (updm s k f) = tview s) as V by apply updm_tview.
   assert (store (updm s k f) = store s) as ST by (apply tview_store; auto).
-  destruct F as [n1 c1 x1 w1 g1 v1 m1 h1].
+  destruct F as [n1 c1 x1 w1 g1 v1 m1 y1 h1].
   unfold tview in V. injection V as E1 E2 E3 E4 E5 E6 E7 E8 E9 E10.
   constructor; try congruence.
   - rewrite E8; auto.
   - rewrite E6, E8. auto.
   - rewrite E6; auto.
-  - intros x (k' & m' & A & B). unfold tdead. rewrite ST. fold (tdead s x).
+  - rewrite E6, E5; auto.
+  - intros x (k' & m' & A & B). unfold tdead. rewrite ST, E5. fold (tdead s x).
     unfold updm in A. destruct (aget (mgrs s) k) eqn:G; [|apply h1; exists k', m'; auto].
     change (aget (aset (mgrs s) k (f m)) k' = Some m') in A. rewrite aget_aset in A. destruct (k =? k') eqn:E.
     + injection A as <-. rewrite (getm_some _ _ _ G) in Hf. auto.
